@@ -68,6 +68,13 @@ func c16CopyRR(w *core.W, rr dns.RR, origin string) {
 	if d := bridge.Diff(rr, cp); d != "" {
 		w.Violation("C16/copy-differs/"+tn+"/"+diffField(d), "Copy is not equal to the original at "+d, wit)
 	}
+	if w.WantSample() && len(a) > 2 {
+		var paths []string
+		for _, r := range a {
+			paths = append(paths, fmt.Sprintf("%s%s[%d octets]", r.Kind, r.Path, r.Hi-r.Lo))
+		}
+		w.Sample(map[string]any{"check": "copy-alias", "type": tn, "origin": origin, "rr": cutS(rr.String()), "mutable_ranges_of_original": paths, "ranges_of_copy": len(b)})
+	}
 }
 
 func c16Copies(w *core.W, j int) {
